@@ -35,6 +35,7 @@ type LoopSpec struct {
 	Decreases  *Clause
 	DoStartTxt []string
 	DoEndTxt   []string
+	WritesAll  bool // `writes everything`: the loop may write any array; nothing about array contents survives the loop head except through invariants
 }
 
 type PointSpec struct {
@@ -46,20 +47,21 @@ type PointSpec struct {
 }
 
 type Contract struct {
-	Key      string
-	Pkg      string
-	Requires []Clause
-	Ensures  []Clause
-	Modifies []Clause
-	Ghosts   []GhostDecl
-	Loops    map[int]*LoopSpec
-	Points   []PointSpec
-	Trusted  bool // contract assumed, body not verified
-	TrustWhy string
-	Props    []string // properties this function's obligations belong to (tags)
-	Inline   bool
-	Prefix   bool // verify only the statements before the first one outside the subset (orchestration functions)
-	Where    string
+	Key           string
+	Pkg           string
+	Requires      []Clause
+	Ensures       []Clause
+	Modifies      []Clause
+	Ghosts        []GhostDecl
+	Loops         map[int]*LoopSpec
+	Points        []PointSpec
+	Trusted       bool // contract assumed, body not verified
+	TrustWhy      string
+	Props         []string // properties this function's obligations belong to (tags)
+	Inline        bool
+	Deterministic bool // also check syntactically that the function's call tree cannot depend on anything but its arguments
+	Prefix        bool // verify only the statements before the first one outside the subset (orchestration functions)
+	Where         string
 }
 
 type SpecFunc struct {
@@ -234,6 +236,8 @@ func (cs *ContractSet) parseFile(path string, pkgName string) error {
 					cur.Inline = true
 				case o == "prefix":
 					cur.Prefix = true
+				case o == "deterministic":
+					cur.Deterministic = true
 				case strings.HasPrefix(o, "props="):
 					cur.Props = strings.Split(strings.TrimPrefix(o, "props="), ",")
 				}
@@ -312,6 +316,11 @@ func (cs *ContractSet) parseFile(path string, pkgName string) error {
 				return fail(err)
 			}
 			curLoop.Decreases = &cl
+		case "writes":
+			if curLoop == nil || strings.TrimSpace(rest) != "everything" {
+				return fail(fmt.Errorf("expected `writes everything` inside a loop block"))
+			}
+			curLoop.WritesAll = true
 		case "do-start", "do-end":
 			if curLoop == nil {
 				return fail(fmt.Errorf("%s outside loop", word))
